@@ -1,5 +1,6 @@
 (* C11 — printed statistics and listings describe the printed matching. *)
-From MP Require Import Spec.ResultsSpec Proofs.ResultsProofs LP.Oracle Run.Session Proofs.LPSound Proofs.EndToEnd Props.Examples.
+From MP Require Import Spec.ResultsSpec Proofs.ResultsProofs LP.Oracle Run.Session Run.Main Text.Render Proofs.LPSound Proofs.EndToEnd
+                       Proofs.SessionProofs Proofs.CommandLineResults Props.Examples.
 Local Open Scope list_scope. Open Scope Z_scope.
 
 (* every quantity of the statistics block (matching line, size, costs, squared costs, degree, profile, max and
@@ -33,6 +34,27 @@ Theorem C11_run_printed_block : forall M o solve out long,
   valid_b (o_pc o) M m = true.
 Proof. exact run_printed_block. Qed.
 Print Assumptions C11_run_printed_block.
+
+(* the whole getter on the Solver object built from its command line: Solver(argv) on a file of the documented format,
+   one solve (any limit, any clock readings, any correct MILP back end) that ended Optimal within its limit; then
+   get_results_short / get_results_long return the frame around EXACTLY the specification block of the matching the
+   values denote, that matching is valid, and the stability line reads True exactly when -stab was given *)
+Theorem C11_command_line : forall c A trailer t0 limit e s s' long,
+  acceptable_ns (c_ns c) (c_twopl c) (c_stab c) = true ->
+  wf_ast (c_na c) (c_twopl c) A = true ->
+  wf (denote (c_na c) (c_twopl c) A) = true ->
+  (c_stab c = true -> two_sided (denote (c_na c) (c_twopl c) A) = true) ->
+  c_bf c = false ->
+  milp_ok (denote (c_na c) (c_twopl c) A) (e_solve e) ->
+  solver_new c (Some (render (c_na c) A trailer)) t0 = SReady s -> do_solve s limit e = Ok s' ->
+  s_status s' = "Optimal"%string -> timed_out s' = false ->
+  let M := denote (c_na c) (c_twopl c) A in
+  let m := matching_of M (val_fun (s_vals s')) in
+  valid_b (c_pc c) M m = true /\
+  exists ri, lp_results s' long =
+             Ok (results_frame ri (if c_stab c then Some "True"%string else None) (spec_stats_text M m long)).
+Proof. exact command_line_results. Qed.
+Print Assumptions C11_command_line.
 
 Example C11_example :
   wf ex_inst = true /\ acceptable_rows (pairs ex_inst) [1; 0; 3] = true /\
